@@ -327,7 +327,8 @@ func redisReply(r *Rand, keywords []string, depth int, big bool) sx.Sx {
 		return sx.L(sx.A("simple"), sx.S([]string{"QUEUED", "hello world", "Background saving started", ""}[r.Intn(4)]))
 	case k < 8:
 		msgs := []string{"ERR unknown command", "WRONGTYPE Operation against a key", "MOVED 3999 127.0.0.1:6381", "ASK 12 10.0.0.5:7000",
-			"CLUSTERDOWN The cluster is down", "BUSY Redis is busy", "NOSCRIPT No matching script", "E"}
+			"CLUSTERDOWN The cluster is down", "BUSY Redis is busy", "NOSCRIPT No matching script", "E",
+			"ERR cl\xc3\xa9 inconnue", "ERR \xff\x80 bytes", "ERR \xe6\x97\xa5\xe6\x9c\xac"}
 		return sx.L(sx.A("error"), sx.S(msgs[r.Intn(len(msgs))]))
 	case k < 11:
 		ints := []int64{0, 1, -1, 42, 1 << 31, -(1 << 31), 1<<63 - 1, -(1 << 62), 1000000}
